@@ -20,7 +20,7 @@ def leaf_templates(model, vocab):
 def gen_universe(rng, model, vocab, n_leaves=40, names=None, all_levels=True):
     """Returns sorted list of concrete entity strings: leaves + (optionally) some deeper/shallower-only entities."""
     if not names:
-        names = rng.sample(UNI_NAMES, rng.randint(2, 5))
+        names = rng.sample(UNI_NAMES, rng.randint(3, 6))
         if rng.random() < 0.3:
             # two names whose digit runs order differently as numbers and as strings (the statement says: compared as strings)
             names = names[:3] + rng.choice([["sword2", "sword10"], ["a1", "a01", "a2"], ["v9", "v10"]])
